@@ -80,6 +80,8 @@ def access_path(e: ast.AST) -> Optional[str]:
             return None
         if isinstance(e.slice, ast.Constant):
             return "%s[%r]" % (b, e.slice.value)
+        if isinstance(e.slice, ast.UnaryOp) and isinstance(e.slice.op, ast.USub) and isinstance(e.slice.operand, ast.Constant) and isinstance(e.slice.operand.value, int):
+            return "%s[%r]" % (b, -e.slice.operand.value)
         return b + "[*]"
     if isinstance(e, ast.Call) and isinstance(e.func, ast.Attribute) and e.func.attr == "get" and e.args and isinstance(e.args[0], ast.Constant):
         b = access_path(e.func.value)
